@@ -595,6 +595,7 @@ def extra_bevy(prop, tier, seed, profiles):
     hist = {"frames": 0, "ended-frames": 0, "key-changes-by-chain": 0, "setkey-switches": 0, "two-animator-apps": 0}
     prev, cfg, dirty, chain_pending, stale, key_set = None, None, False, None, False, False
     cur_slot, last_frame = "-", None
+    clock_paused, clock_speed = False, 1.0
     blk_dyadic, blk_mag, blk_tls = True, 1.0, {}
     frame_key, other_ext, nframes = None, False, 0     # selector key at the end of the last frame; non-setkey external op since
     moved_in_frame = False                             # the chain moved the key during the last frame (select may see it only in the next one)
@@ -641,12 +642,15 @@ def extra_bevy(prop, tier, seed, profiles):
                     tlw = blk_tls.get(w[1])
                     if not blk_dyadic and tlw is not None and near_duration(tlw, prev["pos"]): fails[-1]["inexact_timing"] = True
             continue
+        if w[0] == "tpause": clock_paused = w[1] == "1"; continue
+        if w[0] == "tspeed": clock_speed = struct.unpack("<d", struct.pack("<Q", int(w[1])))[0]; continue
         if w[0] not in ("bapp", "frame", "setkey", "enable", "breset", "settl", "setpos"): continue
         if w[-1].startswith("@") and w[-1] != "@0": continue      # an operation on another entity of the App
         if o.startswith(("panic", "bad")): prev = None; continue
         cur = parse_bevy(o)
         if w[0] == "bapp":
             cur_slot, last_frame = w[3], None
+            clock_paused, clock_speed = False, 1.0
             cfg = dict(has_q=w[8] != "none", chain=w[7], sel=w[5])
             if cfg["has_q"]: hist["two-animator-apps"] += 1
             prev, dirty, key_set, stale = cur, False, False, False
@@ -664,7 +668,8 @@ def extra_bevy(prop, tier, seed, profiles):
             # keep what the last *frame* announced: chain_animations reads it in the next frame
             prev = dict(cur, ev=prev["ev"], frame_state=prev.get("frame_state", prev["state"]), own_end=prev.get("own_end", False))
             continue
-        delta = int(w[1])
+        delta = frame_delta(int(w[1]), clock_paused, clock_speed)      # what Time::delta() reports for this frame
+        if delta != int(w[1]): hist["scaled-or-paused-frames"] = hist.get("scaled-or-paused-frames", 0) + 1
         hist["frames"] += 1
         checked += 1
         if prop == "C18":
@@ -771,6 +776,18 @@ def extra_bevy(prop, tier, seed, profiles):
         prev, dirty, key_set = dict(cur, frame_state=cur["state"], own_end=own_end), False, False
         frame_key, other_ext, nframes = cur["key"], False, nframes + 1
     return dict(checked=checked, fails=fails, evaluations=checked, hist=hist)
+
+
+def frame_delta(raw_ns, paused, speed):
+    """bevy_time 0.11: delta = 0 when paused, raw_delta.mul_f64(speed) when the relative speed is not 1, else raw_delta"""
+    from fractions import Fraction
+    if paused: return 0
+    if speed == 1.0: return raw_ns
+    secs = float(raw_ns // 10 ** 9) + float(raw_ns % 10 ** 9) / 1e9          # Duration::as_secs_f64
+    q = Fraction(speed * secs) * 10 ** 9                                       # Duration::from_secs_f64: nearest-even ns
+    fl = q.numerator // q.denominator
+    r = q - fl
+    return fl + 1 if (r > Fraction(1, 2) or (r == Fraction(1, 2) and fl % 2 == 1)) else fl
 
 
 def secs_f32_of_ns(ns):
